@@ -177,6 +177,29 @@ Theorem C19_same_origin_not_always_attached_refuted :
 Proof. exact origin_converse_refuted. Qed.
 Print Assumptions C19_same_origin_not_always_attached_refuted.
 
+(* ... and it holds once both hosts are spelled in NORMAL FORM (nf_host name port: lower-case
+   name, brackets exactly around a name that contains ':', and no port or a port without
+   leading zero that is not the scheme's default): then equal origin means equal Host string,
+   and a request to the repository's origin does get the pair. *)
+Theorem C19_same_origin_attached_on_normal_forms :
+  forall (parse : string -> option url) o href sc1 sc2 n1 p1 n2 p2 path1 path2 us1 us2 s1 s2,
+    parse (g_url o) = Some (mkUrl sc1 (nf_host n1 p1) path1 us1 s1) ->
+    parse href = Some (mkUrl sc2 (nf_host n2 p2) path2 us2 s2) ->
+    nf_ok sc1 n1 p1 = true -> nf_ok sc2 n2 p2 = true ->
+    origin_of (mkUrl sc1 (nf_host n1 p1) path1 us1 s1) = origin_of (mkUrl sc2 (nf_host n2 p2) path2 us2 s2) ->
+    g_user o <> "" -> g_pass o <> "" ->
+    getter_get parse o href = GReq (Some (Cred (g_user o) (g_pass o) (g_src o))).
+Proof. exact getter_same_origin_attached_nf. Qed.
+Print Assumptions C19_same_origin_attached_on_normal_forms.
+
+Example C19_normal_form_examples :
+  nf_ok "https" "repo.example" "8443" = true /\ nf_ok "http" "repo.example" "" = true /\ nf_ok "http" "::1" "8080" = true /\
+  nf_ok "http" "repo.example" "80" = false /\ nf_ok "http" "Repo.example" "" = false /\ nf_ok "http" "repo.example" "080" = false /\
+  valid_host (nf_host "repo.example" "8443") = true /\ valid_host (nf_host "::1" "8080") = true /\
+  nf_host "::1" "8080" = "[::1]:8080".
+Proof. exact nf_examples. Qed.
+Print Assumptions C19_normal_form_examples.
+
 (* the origin of the property tells the default port of the OTHER protocol apart: http://h:443
    is not http://h, https://h:80 is not https://h (what seeded change C19-7 conflated), while
    http://h:80 is http://H *)
